@@ -320,6 +320,44 @@ def c09(tier):
         obs.append(gate_summary(trace, res, gate_inputs, year, oid, limit_facts(year, given, res)))
         meta[oid] = info
 
+    def flip(sc, g):
+        nonlocal nflip
+        year, request, given = sc["year"], sc["request"], sc["given"]
+        a = aff[_strip_inst(g)]
+        text = {"True": "yes", "False": "no"}.get(a, a)
+        gform = g.split(".")[0]
+        payer_reads = set()        # payer-form amounts that lines of the gate's own form read in the base run
+        for ev in sc["trace"]["events"]:
+            if ev["ev"] == "attempt" and ev["line"].split(".")[0] == gform:
+                for (k3, n3, _d3) in ev["reads"]:
+                    if k3 == "ln" and n3.split(".")[0].split(":")[0] in ("1098", "1099-int", "1099-div", "1099-g", "1099-r", "w-2"):
+                        payer_reads.add(n3)
+        for variant in ("flip", "flip+own-amounts", "flip+own-amounts-no-payer-amounts"):
+            ov = dict(given)
+            ov[g] = text
+            if variant != "flip":
+                # the gate may only matter for the form's other amounts: make the form's own zero amounts positive,
+                # and (third variant) take the amounts of the payer forms (1098, 1099) away
+                touched = False
+                for k2, v2 in given.items():
+                    if sc["kinds"].get(k2) != "FloatInput":
+                        continue
+                    f2 = k2.split(".")[0]
+                    if f2 == gform and float(v2 or 0) == 0.0:
+                        ov[k2] = "300.00"
+                        touched = True
+                    elif variant.endswith("no-payer-amounts") and k2 in payer_reads:
+                        ov[k2] = "0.00"
+                        touched = True
+                if not touched:
+                    continue
+            rng = random.Random("flip-%s-%s" % (sc["sid"], g))
+            p = scenarios.Profile(rng, year=year)
+            tr, res, solver, ans = scenarios.solve_scenario(year, request, p, rng, overrides=ov, snap="none")
+            nflip += 1
+            flipped_gates.add(_strip_inst(g))
+            add(tr, res, year, {"kind": variant, "gate": g, "value": text, "sid": sc["sid"], "year": year, "request": request, "given": dict(ans.given)}, ans.given)
+
     for sc in scs:
         year, request, given = sc["year"], sc["request"], sc["given"]
         add(sc["trace"], sc["res"], year, {"kind": "base", "sid": sc["sid"], "year": year, "request": request, "given": given}, given)
@@ -332,40 +370,83 @@ def c09(tier):
                 read_gates.add(g)
                 flips_done[(year, gb)] = flips_done.get((year, gb), 0) + 1
         for g in sorted(read_gates):
-            a = aff[_strip_inst(g)]
-            text = {"True": "yes", "False": "no"}.get(a, a)
-            gform = g.split(".")[0]
-            payer_reads = set()        # payer-form amounts that lines of the gate's own form read in the base run
-            for ev in sc["trace"]["events"]:
-                if ev["ev"] == "attempt" and ev["line"].split(".")[0] == gform:
-                    for (k3, n3, _d3) in ev["reads"]:
-                        if k3 == "ln" and n3.split(".")[0].split(":")[0] in ("1098", "1099-int", "1099-div", "1099-g", "1099-r", "w-2"):
-                            payer_reads.add(n3)
-            for variant in ("flip", "flip+own-amounts", "flip+own-amounts-no-payer-amounts"):
-                ov = dict(given)
-                ov[g] = text
-                if variant != "flip":
-                    # the gate may only matter for the form's other amounts: make the form's own zero amounts positive,
-                    # and (third variant) take the amounts of the payer forms (1098, 1099) away
-                    touched = False
-                    for k2, v2 in given.items():
-                        if sc["kinds"].get(k2) != "FloatInput":
-                            continue
-                        f2 = k2.split(".")[0]
-                        if f2 == gform and float(v2 or 0) == 0.0:
-                            ov[k2] = "300.00"
-                            touched = True
-                        elif variant.endswith("no-payer-amounts") and k2 in payer_reads:
-                            ov[k2] = "0.00"
-                            touched = True
-                    if not touched:
+            flip(sc, g)
+    # directed bases: (year, gate) pairs no solved explored return supplied.  The forcing reader's own paths (forced
+    # execution) tell which other yes/no and choice answers lead to the question being asked at all.
+    ndirected = 0
+    uncovered = [(int(y), g) for g in cat for y in g["years"] if (int(y), g["input"]) not in flips_done]
+    if uncovered:
+        import pathexplore
+        pcat = {}
+        for (year, g) in uncovered:
+            if year not in pcat:
+                pcat[year] = pathexplore.Catalogue(year)
+                pathexplore._patch_threshold()
+                pathexplore._patch_float(year)
+            enablers = []
+            for reader in g["forcing_readers"].get(str(year), [])[:2]:
+                fname, lname = reader.split(".", 1)
+                try:
+                    form = pcat[year].form(fname)
+                except Exception:     # noqa
+                    try:
+                        form = pcat[year].form(fname + ":0")
+                    except Exception:     # noqa
                         continue
-                rng = random.Random("flip-%s-%s" % (sc["sid"], g))
-                p = scenarios.Profile(rng, year=year)
-                tr, res, solver, ans = scenarios.solve_scenario(year, request, p, rng, overrides=ov, snap="none")
-                nflip += 1
-                flipped_gates.add(_strip_inst(g))
-                add(tr, res, year, {"kind": variant, "gate": g, "value": text, "sid": sc["sid"], "year": year, "request": request, "given": dict(ans.given)}, ans.given)
+                field = next((x for x in form.fields() if x.base_name() == lname), None)
+                if field is None:
+                    continue
+                rec = pathexplore.explore_line(pcat[year], form, field, max_paths=(400 if tier == "quick" else 2000))
+                for dec, out in rec["gate_obs"]:
+                    # a path on which the question is asked, whatever the answer and the outcome (the CURRENT tree's
+                    # outcome must not decide where to look: a gate that stopped working has no "unimplemented" path)
+                    keys = [k for k in dec if _strip_inst(k) == g["input"]]
+                    if not keys or out.startswith("error") or out.startswith("artifact"):
+                        continue
+                    others = {k: v for k, v in dec.items() if k not in keys and not k.endswith(".filing_status")}
+                    cost = sum(1 for k, v in others.items() if _strip_inst(k) in gate_inputs and str(v) == aff[_strip_inst(k)])
+                    enablers.append((cost, len(others), keys[0], others))
+            # fewest other gates tripped, then fewest affirmative answers of any kind (the plainest return that gets the question asked)
+            enablers.sort(key=lambda e: (e[0], sum(1 for v in e[3].values() if v is True), e[1], e[2], sorted(e[3].items(), key=str).__repr__()))
+            uniq, seen_en = [], set()
+            for e in enablers:
+                key_e = (e[2], repr(sorted(e[3].items(), key=str)))
+                if key_e not in seen_en:
+                    seen_en.add(key_e)
+                    uniq.append(e)
+            enablers = uniq
+            done = False
+            for k_try, (cost, _n, gkey, others) in enumerate(enablers[:(3 if tier == "quick" else 10)]):
+                if done or cost > 0:
+                    break
+                ov = {}
+                for k, v in others.items():
+                    ov[k] = {"True": "yes", "False": "no"}.get(str(v), str(v).split(".")[-1] if str(v) != "None" else "")
+                ov[gkey] = {"True": "no", "False": "yes"}.get(g["affirmative"], "")
+                for rep_k in range(2 if tier == "quick" else 6):
+                    rng = random.Random("dir-%d-%s-%d-%d-%d" % (year, g["input"], k_try, rep_k, sd))
+                    force = {"ira": True, "f8606": True, "qualified_div": True, "nc": g["input"].startswith("nc_")}
+                    if "spouse" in g["input"]:
+                        force["status"] = "MarriedFilingJointly"
+                    if g["input"].startswith("1040_sa"):
+                        force["itemize"] = True
+                    p = scenarios.Profile(rng, year=year, **force)
+                    if "ira" in g["input"] or g["input"].startswith("8606"):
+                        p.n["1099-r"] = 2
+                    request = ["1040"] + (["nc_d-400"] if p.nc else [])
+                    tr, res, solver, ans = scenarios.solve_scenario(year, request, p, rng, overrides=ov, snap="none")
+                    ndirected += 1
+                    if os.environ.get("HV_DEBUG"):
+                        print("DIRECTED", year, g["input"], gkey, "cost", cost, "ov", ov, "->", res.get("abort"), res.get("solved"), gkey in ans.given,
+                              res.get("unimpl"), list(res.get("missing", {}))[:3], list(res.get("blocked", {}))[:3], flush=True)
+                    if res.get("solved") and gkey in ans.given:
+                        sc2 = {"year": year, "request": request, "given": dict(ans.given), "trace": tr, "res": res, "kinds": dict(ans.kinds),
+                               "sid": "dir/%d/%s/%d" % (year, g["input"], rep_k)}
+                        add(tr, res, year, {"kind": "directed-base", "sid": sc2["sid"], "year": year, "request": request, "given": sc2["given"]}, sc2["given"])
+                        flips_done[(year, g["input"])] = 1
+                        flip(sc2, gkey)
+                        done = True
+                        break
     # the user changes an answer on the SAME input store after a solve and solves again (a "what-if" session)
     import runs as runs_mod
     import habutax.forms as HF
@@ -453,7 +534,9 @@ def c09(tier):
                    "limit scenarios (15 payers, foreign tax above the threshold); distinct = distinct gates flipped",
            "samples": [meta[len(obs)], {"reads": obs[0]["reads"][:4]}],
            "catalogue_gates": len(cat), "gates_flipped": sorted(flipped_gates), "flipped_runs": nflip, "same_store_flips": nsame, "base_runs": len(scs),
-           "gates_never_read": sorted(gate_inputs - flipped_gates), "gate_like_inputs_missing_from_catalogue": fresh,
+           "gates_never_read": sorted(gate_inputs - flipped_gates),
+           "year_gate_pairs_flipped_on_a_solved_base": len(flips_done), "directed_base_attempts": ndirected,
+           "year_gate_pairs_never_flipped": sorted("%s:%s" % (y, g["input"]) for g in cat for y in g["years"] if (int(y), g["input"]) not in flips_done), "gate_like_inputs_missing_from_catalogue": fresh,
            "explanation": "TLC evaluates Gates.tla (solved => no affirmative gate read by a non-exempt reader, no exceeded limit) on the trace summary of every explored run"}
     return rep, "exploration", cov, ["the gate catalogue (data/gates.json) is frozen and reviewed; it was drafted by forced execution (harness/derive_gates.py)",
                                      "HSA-above-limit scenarios are covered through the 8889 gates (age_under_55 / hsa_full_year) and C08's limit amounts"]
